@@ -119,7 +119,7 @@ func c17Check(env *core.Env, cc core.Case) core.Verdict {
 		v.Counts["entries_checked"] = 7
 		return v
 
-	case "generate", "generate-stdin", "generate-include", "generate-include-pairs", "generate-include-twice", "generate-include-affix", "generate-except", "generate-cmdline", "generate-define", "generate-define-include", "generate-beside-define", "generate-beside-define-include":
+	case "generate", "generate-stdin", "generate-include", "generate-include-pairs", "generate-include-twice", "generate-include-nested", "generate-include-affix", "generate-except", "generate-cmdline", "generate-define", "generate-define-include", "generate-beside-define", "generate-beside-define-include":
 		long := "q" + longBody(c.Len-1)
 		if c.Len == 1 {
 			long = "q"
@@ -147,6 +147,22 @@ func c17Check(env *core.Env, cc core.Case) core.Verdict {
 				}
 			}
 			accept = append(accept, "zulu26")
+		case "generate-include-nested":
+			// the file with the long line includes a further file of 7 KiB in its middle: what is read for the inner file
+			// must not cost the outer one its remaining lines
+			var inner strings.Builder
+			for i := 0; i < 700; i++ {
+				fmt.Fprintf(&inner, "inner%04d\n", i)
+			}
+			tree["regex-assembly/include/inner.ra"] = inner.String()
+			m := len(lines) / 2
+			outer := append(append(append([]string{}, lines[:m]...), "##!> include inner"), lines[m:]...)
+			for i := 0; i < 500; i++ {
+				outer = append(outer, fmt.Sprintf("outertail%04d", i))
+			}
+			tree["regex-assembly/include/big.ra"] = c.join(outer)
+			program = "zulu26\n##!> include big\n"
+			accept = append(accept, "zulu26", "inner0000", "inner0699", "outertail0000", "outertail0250", "outertail0499")
 		case "generate-include-twice":
 			// the same file is included three times: rewritten, through include-except, and plainly; what the first
 			// reader did with the text is no business of the later ones
@@ -529,7 +545,7 @@ func init() {
 					lens = append(lens, 65000+rng.Intn(1200), 131072-2+rng.Intn(5), 600000+rng.Intn(500000))
 				}
 			}
-			for _, cmd := range []string{"generate", "generate-stdin", "generate-include", "generate-include-pairs", "generate-include-twice", "generate-include-affix", "generate-except", "generate-cmdline", "generate-define", "generate-define-include", "generate-beside-define", "generate-beside-define-include", "generate-long-exclusion", "generate-include-many", "format", "format-check", "renumber", "renumber-all", "copyright", "update"} {
+			for _, cmd := range []string{"generate", "generate-stdin", "generate-include", "generate-include-pairs", "generate-include-twice", "generate-include-nested", "generate-include-affix", "generate-except", "generate-cmdline", "generate-define", "generate-define-include", "generate-beside-define", "generate-beside-define-include", "generate-long-exclusion", "generate-include-many", "format", "format-check", "renumber", "renumber-all", "copyright", "update"} {
 				for _, l := range lens {
 					for _, pos := range []string{"first", "middle", "last"} {
 						for _, nf := range []bool{false, true} {
